@@ -170,6 +170,14 @@ def run(rep):
         # comes after it shows only then
         for f in [f for f in frs if len(f) <= (400 if quick else 70000)][:24 if quick else 80]:
             streams.append([f, small[(len(f) + len(streams)) % len(small)]])
+        # ... and followed by MANY: more than 256 and more than 65536 bytes already buffered behind a frame (sizes at which a
+        # length stops fitting one or two octets, and at which small-integer identity ends)
+        for f in [f for f in frs if len(f) <= 400][:6 if quick else 20]:
+            for room in (300,) if quick else (300, 66000):
+                tail = []
+                while sum(len(x) for x in tail) < room:
+                    tail.append(small[(len(tail) + len(f)) % len(small)])
+                streams.append([f] + tail)
         for frs_ in streams:
             total = sum(len(f) for f in frs_)
             scheds = schedules(total, rng, quick)
